@@ -86,6 +86,36 @@ theorem optimize_threshold (hperm : ∀ l, (sorter l).Perm l) {t : Table} (hwf :
   rw [chunks3_flatten cs (fun c hc => all64_len3 c ((emits_codons hwf.1 p cs hem).1 c hc))]
   exact hem
 
+/-- the set the correspondence check tests real outputs against is EXACTLY the model's set of possible
+outputs: `member t p dna` (a per-position look-up, no chooser built, no draw made) holds iff some list of
+in-range draws makes the model return `dna` — for every sorter -/
+theorem optimize_possible_iff (hperm : ∀ l, (sorter l).Perm l) {t : Table} (hwf : WF t) {p : Str} (hp : p ≠ [])
+    (dna : Str) :
+    member t p dna = true ↔
+      ∃ rs, DrawsOK (chooserMap sorter t) p rs ∧ optimize sorter t p rs = some (.ok dna) := by
+  have hb : byteLen p ≠ 0 := fun h => hp ((byteLen_eq_zero p).1 h)
+  have hopt : ∀ rs, optimize sorter t p rs = optimizeLoop (chooserMap sorter t) p rs [] := by
+    intro rs; simp [optimize, partition_nonempty hwf.1, hb]
+  constructor
+  · intro h
+    simp only [member, Bool.and_eq_true, beq_iff_eq] at h
+    obtain ⟨hlen, hm⟩ := h
+    have hpos := (memberLoop_iff _ _ _).1 hm
+    obtain ⟨rs, hd, hloop⟩ := loop_of_posOK hperm hwf p (chunks3 dna) [] hpos
+    refine ⟨rs, hd, ?_⟩
+    rw [hopt, hloop, flatten_chunks3 dna (by omega)]
+    rfl
+  · rintro ⟨rs, hd, ho⟩
+    rw [hopt] at ho
+    obtain ⟨cs, hpos, hout⟩ := posOK_of_loop hperm hwf p rs [] dna hd ho
+    simp only [List.nil_append] at hout
+    have h3 : ∀ c ∈ cs, c.length = 3 := fun c hc => all64_len3 c (posOK_items hwf.1 p cs hpos c hc)
+    simp only [member, Bool.and_eq_true, beq_iff_eq]
+    refine ⟨?_, ?_⟩
+    · rw [hout, flatten_length3 cs h3, posOK_length _ p cs hpos]
+    · rw [hout, chunks3_flatten cs h3]
+      exact (memberLoop_iff _ _ _).2 hpos
+
 /-- an amino acid with positive total usage and at most 9 synonyms has a codon above the 10 % share:
 it gets a chooser (with `max > 0`, so `rand.Intn` cannot panic) -/
 theorem eligible_exists (a : AminoAcid) (hpos : 0 < sumWeights a) (h9 : a.codons.length ≤ 9) :
